@@ -72,6 +72,7 @@ class ModelDriver:
         self.rgene = {v: k for k, v in self.gene.items()}
         self.rgrp = {v: k for k, v in self.grp.items()}
         self.sols = []
+        self.detached = {1: {}, 2: {}}     # reaction objects that left a model: slot -> abstract id -> object
 
     # ------------------------------------------------------------ numbers
     def to_bound(self, v):
@@ -161,6 +162,19 @@ class ModelDriver:
 
     # ------------------------------------------------------------ operations
     def apply(self, op):
+        s = op.get("s", 1)
+        m = self.models.get(s)
+        before = {r.id: r for r in m.reactions} if m is not None else {}
+        try:
+            return self._apply(op)
+        finally:
+            m2 = self.models.get(s)
+            if m2 is m and m is not None:
+                for cid, robj in before.items():
+                    if cid not in m.reactions and cid in self.rrx:
+                        self.detached[s][self.rrx[cid]] = robj
+
+    def _apply(self, op):
         a = op["a"]
         s = op.get("s", 1)
         cobra = self.cobra
@@ -274,6 +288,12 @@ class ModelDriver:
         if a == "SetBounds":
             self.get_rxn(model, op["r"]).bounds = (self.to_bound(op["lo"]), self.to_bound(op["hi"]))
             return None
+        if a == "DetachedSetBounds":
+            robj = self.detached[s].get(op["r"])
+            if robj is None or self.rx[op["r"]] in model.reactions or robj.model is not None:
+                raise Skip("no detached reaction object with that id")
+            robj.bounds = (self.to_bound(op["lo"]), self.to_bound(op["hi"]))
+            return None
         if a == "RxnKnockOut":
             self.get_rxn(model, op["r"]).knock_out()
             return None
@@ -305,9 +325,10 @@ class ModelDriver:
             return None
         if a == "RenameGene":
             self.get_gene(model, op["g"])
-            if op["g"] == op["new"]:
-                raise Skip("same id")
-            cobra.manipulation.rename_genes(model, {self.gene[op["g"]]: self.gene[op["new"]]})
+            pairs = [(op["g"], op["new"])] + [(p["g"], p["new"]) for p in op.get("more", [])]
+            if {a for a, _ in pairs} & {b for _, b in pairs} or len({a for a, _ in pairs}) != len(pairs):
+                raise Skip("rename dictionaries whose values are keys are undefined")
+            cobra.manipulation.rename_genes(model, {self.gene[a]: self.gene[b] for a, b in pairs})
             return None
         if a == "RenameReaction":
             rxn = self.get_rxn(model, op["r"])
@@ -317,8 +338,8 @@ class ModelDriver:
             return None
         if a == "RenameMetabolite":
             met = self.get_met(model, op["met"])
-            if op["met"] == op["new"]:
-                raise Skip("same id")
+            if op["met"] == op["new"] or (op["met"] in EXT) != (op["new"] in EXT):
+                raise Skip("same id / other compartment")
             met.id = self.met[op["new"]]
             return None
         if a == "SetObjective":
